@@ -140,6 +140,9 @@ def expand(ctx: Ctx, pid: str, fam: list[dict], rng: random.Random) -> tuple[lis
                  + pick(lambda d: "stateful" in d["phases"] and d["links"] == "none", 2 if quick else 8))     # stateful selected, API without links
         # quick: a seeded sample of the stop / Ctrl-C positions of every base run; thorough: every position
         recipe = {"stop": 14 if quick else "all", "ctrlc": 9 if quick else "all", "faults": 2 if quick else 6}
+        # user code that raises after a scenario was closed (a target metric Hypothesis rejects): the stream stays well-formed
+        bases = bases + [{"ops": ["ok"], "links": lk, "phases": ph, "workers": 1, "max_failures": 0, "cof": False, "unique": False,
+                          "nan_target": True} for lk, ph in (("ok", ["stateful"]), ("bad", ["stateful"]), ("ok", ["fuzzing", "stateful"]))]
         # transient internal errors inside stateful steps (status consistency between scenario, suite and phase)
         bases = bases + [{"ops": ["ok"], "links": lk, "phases": ["stateful"], "workers": 1, "max_failures": 0, "cof": False,
                           "unique": False, "mf_fault": occ} for lk in ("ok", "bad") for occ in ((1, 2, 3) if quick else (1, 2, 3, 4, 5, 6, 8))]
